@@ -37,6 +37,7 @@ type Config struct {
 	IdxSize   uint32 `json:"idx_size"`  // index file size limit, 0 = default
 	PrimSize  uint32 `json:"prim_size"` // primary file size limit, 0 = default
 	FileCache int    `json:"file_cache"`
+	Sync      bool   `json:"sync_on_flush,omitempty"` // SyncOnFlush option (fsync as part of Flush)
 }
 
 // KeySpec is one key of a case's pool: a digest and how it is encoded.
@@ -267,6 +268,7 @@ func storeOptions(cfg Config, extra ...store.Option) []store.Option {
 		store.IndexFileSize(cfg.IdxSize),
 		store.PrimaryFileSize(cfg.PrimSize),
 		store.FileCacheSize(cfg.FileCache),
+		store.SyncOnFlush(cfg.Sync),
 		// Background activity is driven by the harness, not by timers.
 		store.GCInterval(time.Hour),
 		store.GCTimeLimit(0),
